@@ -21,6 +21,15 @@ where
         ctx.violation(format!("{}|points-more-than-bounding-box-area", kind), case, || format!("points() yields more than {} points (bounding box area {})", budget, area));
         return;
     }
+    // the same sequence through the other ways of consuming an iterator, from partly consumed states
+    if pts.len() <= 2048 {
+        let n = pts.len();
+        let first_row = pts.iter().take_while(|q| q.y == pts[0].y).count();
+        if let Some(d) = egmon::target::consumer_disagreement(&|| p.points(), &pts, &[0, 1, first_row, first_row + 1, n / 2, n]) {
+            ctx.violation(format!("{}|points|consumed-differently", kind), case, || d.clone());
+        }
+        ctx.count("points_iterators_consumed_in_other_ways", 1);
+    }
     // strictly increasing in (y, x): each point once, row-major
     for w in pts.windows(2) {
         if (w[0].y, w[0].x) >= (w[1].y, w[1].x) {
